@@ -275,6 +275,33 @@ example : (rxObj {} exSw exFrame 4).map (fun r => (r.1.stats.map fun s => (s.no,
 example : accepts exSw exFrame 3 = true ∧ accepts exSw exFrame 9 = false ∧
     accepts { exSw with ports := [⟨1, [], 2 + 4, 0⟩] } exFrame 1 = false := by decide
 
+/-- **Only the 802.1D bridge group address itself is spared by NO_RECV and refused by NO_RECV_STP** — `port_guards` (4) read
+in both directions: while fragments are not dropped, a frame from a port that exists is accepted exactly when neither
+receive rule applies, and "802.1D frame" means `dst = 01:80:c2:00:00:00`, not the reserved block around it (a pause, LACP,
+802.1X or LLDP frame is an ordinary frame to both rules), whatever the other config and state bits of the port are and
+however the port got them (`sw` is any switch state, not one reached by port-mods). -/
+theorem rx_accepts_exact (sw : Sw) (f : Frame) (inPort : Nat) (p : Port) (hp : findPort sw.ports inPort = some p)
+    (hfl : sw.flags &&& 3 = 0) :
+    accepts sw f inPort =
+      !((has p.config PC_NO_RECV && !(f.eth.dst == stpMac)) || (has p.config PC_NO_RECV_STP && (f.eth.dst == stpMac))) := by
+  simp only [accepts, hp, rxAccepts, hfl]
+  cases has p.config PC_NO_RECV <;> cases has p.config PC_NO_RECV_STP <;> cases (f.eth.dst == stpMac) <;> simp
+
+/-- an LLDP-addressed frame (01:80:c2:00:00:0e) is dropped on the NO_RECV port 1 and accepted on the NO_RECV_STP port 2;
+a frame to the bridge group address the other way round -/
+example :
+    let lldp : Frame := ⟨{ exEth with dst := [0x01, 0x80, 0xc2, 0, 0, 0x0e] }, .raw [1, 2]⟩
+    let bpdu : Frame := ⟨{ exEth with dst := stpMac }, .raw [1, 2]⟩
+    let sw : Sw := { exSw with ports := [⟨1, [], 2 + 4, 0⟩, ⟨2, [], 2 + 8, 0⟩] }
+    accepts sw lldp 1 = false ∧ accepts sw lldp 2 = true ∧ accepts sw bpdu 1 = true ∧ accepts sw bpdu 2 = false := by decide
+
+/-- the guards of `port_guards` (1) speak about the port table as it IS: a table no port-mod history produces — port 2
+administratively down with its link up, port 3 with its link down and PORT_DOWN clear — lets ALL and explicit outputs from
+port 1 reach port 4 only -/
+example : (packetOut {} { exSw with ports := [⟨1, [], 2, 0⟩, ⟨2, [], 2 + 1, 0⟩, ⟨3, [], 2, 1⟩, ⟨4, [], 2, 0⟩] }
+      [.output P_ALL 0, .output 2 0, .output 3 0, .output P_FLOOD 0] exSmall 1).map
+    (fun r => r.2.map fun o => match o with | .frame p _ => p | _ => 0) = .ok [4, 4] := by decide +kernel
+
 /-- **Every emitted IPv4/TCP/UDP frame has valid length fields and checksums** — with the packet named.  Under the
 hypotheses of `actions_spec` let `F i` be the packet after the first `i` effective actions
 (`rewrite (tableRewrite sw) inPort ((effective acts).take i) f`) and, for the flow entry `racts` that an output to TABLE
